@@ -17,6 +17,9 @@
     members still ahead of it: byte-level skipping belongs to C02/C14 and is tied by correspondence;
   * the chunked layout of `linkedNodes`/`linkedPairs` is a flat list here; `Model/AstChunk.lean`
     has the chunks and the proof that `At/Set/Push/Pop` on them are the list operations;
+  * the code modelled is ast/*.go WITH the four C15 repairs (patches/C15-*.diff): the index keeps the
+    first pair of a key, `linkedPairs.Get` survives stale entries and never answers with an unset
+    pair, `Move` with an index beyond the children is a no-op;
   * `caching.StrHash` is taken to be collision free (hash of a pair = its key, `none` = the zero
     hash of an emptied `Pair{}`; `StrHash` never returns 0, internal/caching/hashing.go:30).
 -/
@@ -62,12 +65,13 @@ def ixGet (m : Index) (h : Hash) : Option Nat :=
 def ixDel (m : Index) (h : Hash) : Index := m.filter (fun e => !(e.1 = h))
 def ixSet (m : Index) (h : Hash) (i : Nat) : Index := (h, i) :: ixDel m h
 
-/-- `BuildIndex` (ast/buffer.go:198): later pairs overwrite earlier ones with the same hash -/
-def buildIndexFrom (m : Index) : Nat → List PairM → Index
-  | _, [] => m
-  | i, p :: r => buildIndexFrom (ixSet m p.1 i) (i + 1) r
+/-- `BuildIndex` (ast/buffer.go:198) walks the slots from the last to the first, so the FIRST pair
+    of a hash is the one that stays: slot `i` is written after all the slots behind it -/
+def buildIndexAt : Nat → List PairM → Index
+  | _, [] => []
+  | i, p :: r => ixSet (buildIndexAt (i + 1) r) p.1 i
 
-def buildIndex (st : List PairM) : Index := buildIndexFrom [] 0 st
+def buildIndex (st : List PairM) : Index := buildIndexAt 0 st
 
 /-- `newObject` / `setObject` (ast/node.go:1993, 2004) -/
 def mkObject (st : List PairM) : NodeM :=
@@ -98,11 +102,6 @@ def popRev {α : Type} (live : α → Bool) : List α → List α × Bool
 def popLive {α : Type} (live : α → Bool) (st : List α) : List α × Bool :=
   let r := popRev live st.reverse
   (r.1.reverse, r.2)
-
-/-- the position search of `Move` (ast/node.go:965-985): a logical index is replaced by the physical
-    position of that live slot when there is one, and left as it is otherwise -/
-def remapIdx {α : Type} (live : α → Bool) (st : List α) (i : Nat) : Nat :=
-  (nthLive live st i).getD i
 
 /-! ## parsing one level (ast/node.go:2013 parseRaw, ast/parser.go:313 Parse) -/
 
@@ -184,34 +183,36 @@ def skipKeyLazy (pre : List PairM) : List (Key × Tree) → Key → NodeM × Opt
 
 /-! ## key lookup in the pair store (ast/buffer.go:307 `linkedPairs.Get`) -/
 
-/-- the linear search: first slot whose `Key` field equals `key` (an emptied pair has `Key == ""`) -/
+/-- `Pair.unset` (ast/buffer.go): the zero `Pair{}` a soft delete leaves behind -/
+def unsetPair (p : PairM) : Bool := p.1.isNone && p.2.1.isEmpty && !p.2.2.live
+
+/-- the linear search: first slot whose `Key` equals `key` and which is not an unset pair -/
 def linearGet (key : Key) : List PairM → Option Nat
   | [] => none
-  | p :: r => if p.2.1 = key then some 0 else (linearGet key r).map (· + 1)
+  | p :: r => if p.2.1 = key && !unsetPair p then some 0 else (linearGet key r).map (· + 1)
 
 inductive Found where
   | at (i : Nat)
   | no
-  | panic            -- nil dereference of `self.At(i)` at ast/buffer.go:313
 deriving Repr, DecidableEq
 
+def linearFound (st : List PairM) (key : Key) : Found :=
+  match linearGet key st with
+  | some j => .at j
+  | none => .no
+
+/-- `linkedPairs.Get`: through the index when there is one; an entry that leads nowhere (slot popped
+    since), to an unset pair or to another key falls back to the linear search -/
 def pairsGet (st : List PairM) (ix : Option Index) (key : Key) : Found :=
   match ix with
   | some m =>
     match ixGet m (some key) with
     | some i =>
       match st[i]? with
-      | none => .panic
-      | some p =>
-        if p.2.1 = key then .at i
-        else match linearGet key st with
-          | some j => .at j
-          | none => .no
+      | none => linearFound st key
+      | some p => if p.2.1 = key && !unsetPair p then .at i else linearFound st key
     | none => .no
-  | none =>
-    match linearGet key st with
-    | some j => .at j
-    | none => .no
+  | none => linearFound st key
 
 /-- `skipKey` (ast/node.go:1559) on a node that already passed `should(V_OBJECT)`;
     returns the node (lazy loading may have advanced) and the slot found -/
@@ -328,95 +329,11 @@ def NodeM.canon (n : NodeM) : Bytes := n.encode.1
 
 /-! ## SortKeys (ast/node.go:1179-1237, ast/buffer.go:400-415) -/
 
-/-! The hash index after `Sort()`.  `Swap(i, j)` (ast/buffer.go:404) writes the entries of the two
-    pairs it exchanges, so with duplicated keys the final entry of a hash depends on which exchange
-    came last.  The store itself ends in the unique stable arrangement (`sortByKey`); for the index
-    the exchange sequence of Go 1.23 `sort.Stable` (sort/zsortinterface.go: `stable`,
-    `insertionSort`, `symMerge`, `rotate`, `swapRange`) is replayed on the keys.  Nothing is proved
-    about this replay and nothing depends on it but the index. -/
-
-structure SortSt where
-  ks : Array (Hash × Key)
-  ix : Index
-
-def SortSt.less (s : SortSt) (i j : Nat) : Bool := keyLt (s.ks[i]!).2 (s.ks[j]!).2
-
-def SortSt.swap (s : SortSt) (i j : Nat) : SortSt :=
-  let a := s.ks[i]!
-  let b := s.ks[j]!
-  { ks := (s.ks.set! i b).set! j a, ix := ixSet (ixSet s.ix a.1 j) b.1 i }
-
-def insInner (a : Nat) : Nat → SortSt → SortSt
-  | 0, s => s
-  | j + 1, s => if j + 1 > a && s.less (j + 1) j then insInner a j (s.swap (j + 1) j) else s
-
-def insertionSortSim (s : SortSt) (a b : Nat) : SortSt :=
-  (List.range' (a + 1) (b - a - 1)).foldl (fun s i => insInner a i s) s
-
-def swapRangeSim (s : SortSt) (a b n : Nat) : SortSt :=
-  (List.range n).foldl (fun s i => s.swap (a + i) (b + i)) s
-
-def rotateLoop : Nat → SortSt → Nat → Nat → Nat → SortSt × Nat
-  | 0, s, _, i, _ => (s, i)
-  | f + 1, s, m, i, j =>
-    if i = j then (s, i)
-    else if i > j then rotateLoop f (swapRangeSim s (m - i) m j) m (i - j) j
-    else rotateLoop f (swapRangeSim s (m - i) (m + j - i) i) m i (j - i)
-
-def rotateSim (s : SortSt) (a m b : Nat) : SortSt :=
-  let r := rotateLoop (b - a + 1) s m (m - a) (b - m)
-  swapRangeSim r.1 (m - r.2) m r.2
-
-/-- `for i < j { h := (i+j)/2; if pred(h) { i = h+1 } else { j = h } }; return i` -/
-def bsearch (pred : Nat → Bool) : Nat → Nat → Nat → Nat
-  | 0, i, _ => i
-  | f + 1, i, j =>
-    if i < j then
-      let h := (i + j) / 2
-      if pred h then bsearch pred f (h + 1) j else bsearch pred f i h
-    else i
-
-def symMergeSim : Nat → SortSt → Nat → Nat → Nat → SortSt
-  | 0, s, _, _, _ => s
-  | f + 1, s, a, m, b =>
-    if m - a == 1 then
-      let i := bsearch (fun h => s.less h a) (b + 1) m b
-      (List.range' a (i - 1 - a)).foldl (fun s k => s.swap k (k + 1)) s
-    else if b - m == 1 then
-      let i := bsearch (fun h => !s.less m h) (b + 1) a m
-      (List.range (m - i)).foldl (fun s t => s.swap (m - t) (m - t - 1)) s
-    else
-      let mid := (a + b) / 2
-      let n := mid + m
-      let sr : Nat × Nat := if m > mid then (n - b, mid) else (a, m)
-      let p := n - 1
-      let start := bsearch (fun c => !s.less (p - c) c) (b + 1) sr.1 sr.2
-      let end_ := n - start
-      let s := if start < m && m < end_ then rotateSim s start m end_ else s
-      let s := if a < start && start < mid then symMergeSim f s a start mid else s
-      if mid < end_ && end_ < b then symMergeSim f s mid end_ b else s
-
-def mergePasses : Nat → SortSt → Nat → Nat → SortSt
-  | 0, s, _, _ => s
-  | f + 1, s, n, bs =>
-    if bs < n then
-      let q := n / (2 * bs)
-      let s := (List.range q).foldl (fun s t => symMergeSim (n + 2) s (2 * bs * t) (2 * bs * t + bs) (2 * bs * t + 2 * bs)) s
-      let a := 2 * bs * q
-      let s := if a + bs < n then symMergeSim (n + 2) s a (a + bs) n else s
-      mergePasses f s n (2 * bs)
-    else s
-
-def stableSim (s : SortSt) : SortSt :=
-  let n := s.ks.size
-  let q := n / 20
-  let s := (List.range q).foldl (fun s t => insertionSortSim s (20 * t) (20 * t + 20)) s
-  let s := insertionSortSim s (20 * q) n
-  mergePasses (n + 1) s n 20
-
+/-- `Sort()` (ast/buffer.go:413): the store ends in the unique stable arrangement; an index, when
+    there is one, is dropped and rebuilt afterwards (first pair of a key wins again) -/
 def sortStore (st : List PairM) (ix : Option Index) : List PairM × Option Index :=
   let st' : List PairM := sortBy (fun p => p.2.1) st
-  (st', ix.map (fun m => (stableSim { ks := (st.map (fun p => (p.1, p.2.1))).toArray, ix := m }).ix))
+  (st', ix.map (fun _ => buildIndex st'))
 
 /-- the representation `Parse` gives a member of a container that is loaded in one go:
     with a lock see `childL`; without, the iterator leaves raw children (ast/parser.go:527) -/
@@ -476,10 +393,13 @@ def retChild (c : Option NodeM) : Ret :=
   | some c => if c.live then .val c.canon else .nx
   | none => .nx
 
-/-- removing the index entries of the pairs that `linkedPairs.Pop` drops (ast/buffer.go:241-255) -/
-def ixDelAll (m : Index) : List PairM → Index
-  | [] => m
-  | p :: r => ixDelAll (ixDel m p.1) r
+/-- the index after `linkedPairs.Pop` has dropped the slots `i, i+1, ...` holding `ps`
+    (ast/buffer.go:241-259): `Unset(j)` removes the entry of the pair's hash only when that entry
+    names slot `j`.  (The code goes from the last slot down; an entry can only ever be removed by the
+    one slot it names, so the order does not matter.) -/
+def ixPopSlots (m : Index) : Nat → List PairM → Index
+  | _, [] => m
+  | i, p :: r => ixPopSlots (if ixGet m p.1 = some i then ixDel m p.1 else m) (i + 1) r
 
 /-- one operation applied to the node itself -/
 def NodeM.stepHere (n0 : NodeM) (op : Op) : Ret × NodeM :=
@@ -491,7 +411,6 @@ def NodeM.stepHere (n0 : NodeM) (op : Op) : Ret × NodeM :=
     match r.2 with
     | .at i => (retChild (r.1.childAt i), r.1)
     | .no => (.nx, r.1)
-    | .panic => (.panic, r.1)
   | .idx i =>                                                    -- Index, ast/node.go:1036
     let n := n0.checkRaw
     if n.kind ≠ .arr ∧ n.kind ≠ .obj then (.err .unsupported, n) else
@@ -523,23 +442,20 @@ def NodeM.stepHere (n0 : NodeM) (op : Op) : Ret × NodeM :=
     | .null => (.b false, .obj 1 [mkPair k node] none)
     | .obj =>
       let r := n.skipKey k
-      (match r.2 with
-       | .panic => (.panic, r.1)
-       | f =>
-         let hit : Option Nat := match f with
+      (let hit : Option Nat := match r.2 with
            | .at i => (match r.1.childAt i with
              | some c => if c.live then some i else none
              | none => none)
            | _ => none
-         match hit with
-         | some i => (.b true, r.1.setChildAt i node)
-         | none =>
-           -- "self must be fully-loaded here"
-           match r.1 with
-           | .obj l st ix =>
-             if l = 0 then (.b false, .obj 1 [mkPair k node] none)
-             else (.b false, .obj (l + 1) (st ++ [mkPair k node]) (ix.map (fun m => ixSet m (some k) st.length)))
-           | n' => (.b false, n'))
+       match hit with
+       | some i => (.b true, r.1.setChildAt i node)
+       | none =>
+         -- "self must be fully-loaded here"
+         match r.1 with
+         | .obj l st ix =>
+           if l = 0 then (.b false, .obj 1 [mkPair k node] none)
+           else (.b false, .obj (l + 1) (st ++ [mkPair k node]) (ix.map (fun m => ixSet m (some k) st.length)))
+         | n' => (.b false, n'))
     | _ => (.err .unsupported, n)
   | .unset k =>                                                  -- Unset, ast/node.go:782
     let n := n0.checkRaw
@@ -547,7 +463,6 @@ def NodeM.stepHere (n0 : NodeM) (op : Op) : Ret × NodeM :=
     let n1 := n.skipAll
     let r := n1.skipKey k
     (match r.2 with
-     | .panic => (.panic, r.1)
      | .no => (.b false, r.1)
      | .at i =>
        match r.1, r.1.childAt i with
@@ -594,7 +509,7 @@ def NodeM.stepHere (n0 : NodeM) (op : Op) : Ret × NodeM :=
                if !pairLive c then (.err .notfound, .obj l st ix)
                else if i = l - 1 then
                  let p := popLive pairLive st
-                 (.b true, .obj (if p.2 then l - 1 else l) p.1 (ix.map (fun m => ixDelAll m (st.drop p.1.length).reverse)))
+                 (.b true, .obj (if p.2 then l - 1 else l) p.1 (ix.map (fun m => ixPopSlots m p.1.length (st.drop p.1.length))))
                else (.b true, .obj (l - 1) (st.set j deadPair) ix)
              | none => (.err .notfound, .obj l st ix))
           | none => (.err .notfound, .obj l st ix))
@@ -624,7 +539,7 @@ def NodeM.stepHere (n0 : NodeM) (op : Op) : Ret × NodeM :=
       (match n.skipAll with
        | .obj l st ix =>
          let p := popLive pairLive st
-         (.ok, .obj (if p.2 then l - 1 else l) p.1 (ix.map (fun m => ixDelAll m (st.drop p.1.length).reverse)))
+         (.ok, .obj (if p.2 then l - 1 else l) p.1 (ix.map (fun m => ixPopSlots m p.1.length (st.drop p.1.length))))
        | n' => (.ok, n'))
     | _ => (.err .unsupported, n)
   | .move d s =>                                                 -- Move, ast/node.go:954
@@ -632,9 +547,13 @@ def NodeM.stepHere (n0 : NodeM) (op : Op) : Ret × NodeM :=
     if n.kind ≠ .arr then (.err .unsupported, n) else
     (match n.skipAll with
      | .arr l st =>
-       let d' := if l ≠ st.length then remapIdx NodeM.live st d else d
-       let s' := if l ≠ st.length then remapIdx NodeM.live st s else s
-       (.ok, .arr l (moveElem st d' s'))
+       if l ≠ st.length then
+         -- unset nodes around: both indexes are looked up among the live slots; one that is not
+         -- there makes the call a no-op
+         (match nthLive NodeM.live st d, nthLive NodeM.live st s with
+          | some d', some s' => (.ok, .arr l (moveElem st d' s'))
+          | _, _ => (.ok, .arr l st))
+       else (.ok, .arr l (moveElem st d s))
      | n' => (.ok, n'))
   | .sort r => (.ok, n0.checkRaw.sortM r)                        -- SortKeys, ast/node.go:1179
   | .load =>                                                     -- Load, ast/node.go:1452
@@ -649,20 +568,18 @@ def NodeM.stepHere (n0 : NodeM) (op : Op) : Ret × NodeM :=
     (.val e.1, e.2)
 
 /-- `Get(key)` / `Index(i)` used to walk towards the addressed node -/
-def NodeM.locate (n0 : NodeM) (s : Sel) : NodeM × Option Nat × Bool :=
+def NodeM.locate (n0 : NodeM) (s : Sel) : NodeM × Option Nat :=
   let n := n0.checkRaw
   match s with
   | .key k =>
-    if n.kind ≠ .obj then (n, none, false) else
+    if n.kind ≠ .obj then (n, none) else
     let r := n.skipKey k
     (match r.2 with
-     | .at i => (r.1, some i, false)
-     | .no => (r.1, none, false)
-     | .panic => (r.1, none, true))
+     | .at i => (r.1, some i)
+     | .no => (r.1, none))
   | .idx i =>
-    if n.kind ≠ .arr ∧ n.kind ≠ .obj then (n, none, false) else
-    let r := n.skipIndex i
-    (r.1, r.2, false)
+    if n.kind ≠ .arr ∧ n.kind ≠ .obj then (n, none) else
+    n.skipIndex i
 
 /-- an operation addressed to the node reached by `path` from the root; the walk itself is made of
     `Get`/`Index` calls and loads what they load -/
@@ -670,8 +587,7 @@ def NodeM.stepAt (n : NodeM) : List Sel → Op → Ret × NodeM
   | [], op => n.stepHere op
   | s :: p, op =>
     let r := n.locate s
-    if r.2.2 then (.panic, r.1) else
-    match r.2.1 with
+    match r.2 with
     | none => (.notarget, r.1)
     | some i =>
       match r.1.childAt i with
